@@ -258,6 +258,33 @@ def value_backpressure_rules(r, ctx):
             r.check(nm in ("push_bytes", "prepare_write") and ("ValueBackpressure" in b.defpath), "current-access/%s/%s" % (nm, c.name), c.loc(), "current.%s in %s" % (c.name, nm),
                     "ValueBackpressure.current modified in %s (%s)" % (b.defpath, c.name))
     pw = rt.fn(name="prepare_write", self_adt=VB)
+    # "is a value pending" is a state of its own: an empty body is a value (the Recon of Extant), so the answer must not be
+    # read off the buffer's content
+    hd = [b for b in rt.all_bodies() if b.meta.get("name") == "has_data" and "ValueBackpressure" in b.defpath and not any(c.name == "has_data" for c in b.calls)]
+    if len(hd) != 1:
+        raise AnchorMissing("ValueBackpressure::has_data (inherent)")
+    hd = ctx.saw(hd[0])
+    flds = set()
+    for i, j, p_, rv, line in hd.assigns():
+        for o in ([rv[1]] if rv[0] == "use" else [rv[2]] if rv[0] in ("un", "cast") else [["c", rv[2]]] if rv[0] == "ref" else []):
+            pl = o[1] if o and o[0] in ("c", "m") else None
+            if pl is not None:
+                flds |= {f for a, f in hd.resolve(pl).field_pairs if str(a).endswith("ValueBackpressure")}
+    for c in hd.calls:
+        for a in c.args:
+            if a[0] in ("c", "m"):
+                flds |= {f for a_, f in hd.resolve(a[1]).field_pairs if str(a_).endswith("ValueBackpressure")}
+    r.check("current" not in flds and flds, "has_data/independent-of-the-body", where(hd), "has_data reads %s, not the content of the buffer: an empty body is still a pending value" % sorted(flds),
+            "ValueBackpressure::has_data is computed from the buffer (%s): a pending value whose body is empty (Extant) is forgotten, and it has already replaced the value before it" % sorted(flds))
+    pbb = rt.fn(name="push_bytes", self_adt=VB)
+
+    def const_store(b, fld, val):
+        return [i for i, j, p_, rv, line in b.assigns() if rv[0] == "use" and rv[1][0] == "k" and rv[1][1].get("b") is val and describe_place(b, p_).endswith("." + fld)]
+    for f in sorted(flds - {"current"}):
+        st = const_store(pbb, f, True)
+        r.check(bool(st) and all(pbb.path_avoiding([0], set(pbb.exits()), avoid={i}) is None for i in st[:1]), "push_bytes/sets-%s" % f, where(pbb), "every push marks a value as pending", "push_bytes does not set `%s` on every path" % f)
+        cl = const_store(pw, f, False)
+        r.check(bool(cl) and all(pw.path_avoiding([0], set(pw.exits()), avoid={i}) is None for i in cl[:1]) and not const_store(pw, f, True), "prepare_write/clears-%s" % f, where(pw), "handing the value over clears the mark", "prepare_write does not clear `%s`: the same value is sent again and again" % f)
     swp = [c for c in pw.calls if c.name == "swap"]
     clr = [c for c in pw.calls if c.name == "clear"]
     r.check(len(swp) == 1 and len(clr) == 1 and pw.dominates(swp[0].block, clr[0].block) and describe_operand(pw, clr[0].args[0]).endswith(".current"), "prepare_write/swap-before-clear", where(pw),
